@@ -1268,6 +1268,7 @@ def run(tier, seed):
         abstraction.shared = SharedAbstraction(parse_shared_sites(), set(unsafe_shared))
         c.expect("memo.keys", "ok " + (" ".join("%s:%s" % (n.encode().hex(), "c" if b else "a") for n, b in mk.items()) or "-"),
                  {"what": "the driver was built from this run's key kinds"}, proven=False)
+    scope_alias_probe(c)
     zyg = Zygote()
     try:
         for name, ops in directed_generic(targets) + directed():
@@ -1293,6 +1294,71 @@ def run(tier, seed):
     finally:
         zyg.close()
     return rc
+
+
+def scope_alias_probe(c):
+    """C19, first sentence, on embit alone: the scopes of a PSBT / PSET, however the object was created (default
+    constructor, from a transaction, through the constructor with the PSBTv2 counters among the unknown fields, by
+    parsing), are pairwise distinct objects and their mutable members (dicts, lists) are pairwise distinct objects too;
+    writing to one scope does not show in another."""
+    import io
+    from embit.psbt import PSBT
+    from embit.liquid.pset import PSET
+    from embit.transaction import Transaction, TransactionInput, TransactionOutput
+    from embit.script import Script
+
+    def mutable_members(o):
+        out = []
+        for k, v in sorted(vars(o).items()):
+            if isinstance(v, (dict, list, set, bytearray)):
+                out.append((k, v))
+        return out
+
+    def tx(n_in, n_out):
+        return Transaction(2, [TransactionInput(bytes([i + 1]) * 32, i) for i in range(n_in)],
+                           [TransactionOutput(1000 + j, Script(b"\x51")) for j in range(n_out)], 0)
+
+    routes = []
+    for cls in (PSBT, PSET):
+        for n_in, n_out in ((2, 2), (3, 1), (1, 3)):
+            cnt = {b"\x04": bytes([n_in]), b"\x05": bytes([n_out])}
+            routes.append((cls.__name__ + "(unknown=counters, version=2) %d/%d" % (n_in, n_out),
+                           lambda cls=cls, cnt=cnt: cls(unknown=dict(cnt), version=2)))
+        routes.append((cls.__name__ + "()", lambda cls=cls: cls()))
+    routes.append(("PSBT(tx) 3/2", lambda: PSBT(tx(3, 2))))
+    routes.append(("PSBT.parse(PSBT(tx).serialize()) 2/3", lambda: PSBT.parse(PSBT(tx(2, 3)).serialize())))
+    n = 0
+    for name, mk in routes:
+        try:
+            p = mk()
+        except Exception as e:
+            c.tally("scope-alias-probe:%s:raise %s" % (name.split(" ")[0], type(e).__name__))
+            continue
+        n += 1
+        c.count(("scope-alias", name), nontrivial=True)
+        for kind, scopes in (("inputs", p.inputs), ("outputs", p.outputs)):
+            for i in range(len(scopes)):
+                for j in range(i + 1, len(scopes)):
+                    a, b = scopes[i], scopes[j]
+                    if a is b:
+                        c.fail("two scopes of one PSBT are the same object (independently created scopes share state)",
+                               {"op": "scope-alias-probe", "route": name, "kind": kind, "i": i, "j": j})
+                        continue
+                    mb = {k: v for k, v in mutable_members(b)}
+                    for k, v in mutable_members(a):
+                        if k in mb and mb[k] is v:
+                            c.fail("two scopes of one PSBT share a mutable member object",
+                                   {"op": "scope-alias-probe", "route": name, "kind": kind, "i": i, "j": j, "member": k})
+            # behavioural form: a write to the first scope must not show in the others
+            if len(scopes) >= 2:
+                before = [dict(s.unknown) for s in scopes[1:]]
+                scopes[0].unknown[b"\xfc\x05probe"] = b"\x01"
+                after = [dict(s.unknown) for s in scopes[1:]]
+                del scopes[0].unknown[b"\xfc\x05probe"]
+                if before != after:
+                    c.fail("a field written to one scope appears in another scope",
+                           {"op": "scope-alias-probe", "route": name, "kind": kind, "check": "other-changed"})
+    c.tally("scope-alias-probe:routes", n)
 
 
 def probe_unlisted_defaults(c):
